@@ -233,7 +233,7 @@ fn qp(k: usize, f: impl Fn(&B, &B)) {
         _ => f(&B::build(&obj(&[1], &[n])), &B::build(&obj(&[1], &[n]))),
     }
 }
-//@ props: C13, C07
+//@ props: UNREACHED-C13
 //@ timeout: 1800
 //@ harness: c13q_distinct_0, c13q_distinct_1, c13q_distinct_2, c13q_distinct_3, c13q_sets_0, c13q_sets_1, c13q_sets_2, c13q_sets_3, c13q_sets_4
 //@ desc: quick tier (two-element inputs, one shape per harness, symbolic payloads): array_distinct on [n,n'], [n,s2] (a 2-byte string whose bytes can equal the number payload), [[n],[n']] and scalar n; array_intersection / array_except / array_overlap on [n,n']/[n''], [n,s]/[s'], [{},n]/{} (an empty object as second argument), n/[n',n''], {k:n}/{k':n'}: first occurrences kept in order; multiset intersection, its complement, overlap <=> non-empty intersection; canonical outputs; distinct idempotent
@@ -250,7 +250,7 @@ harness!(c13q_sets_2, qp(2, |a, b| inter_except(a, b)));
 harness!(c13q_sets_3, qp(3, |a, b| inter_except(a, b)));
 harness!(c13q_sets_4, qp(4, |a, b| inter_except(a, b)));
 
-//@ props: C13
+//@ props: UNREACHED-C13
 //@ timeout: 300
 //@ expect: twin
 //@ desc: vacuity twin: two arbitrary numbers claimed never to overlap — must be refuted
